@@ -659,7 +659,7 @@ Proof. induction a; cbn [is_prefix app]; [reflexivity|]. rewrite N.eqb_refl. exa
 
 Lemma pax_apply_schily st key value :
   pax_apply st (str_schily ++ key) value =
-  Some (ps_set st None (set_xattr (ps_out st) (d_xattr (ps_out st) ++ [(key, value)]))).
+  Some (ps_set st None (set_xattr (ps_out st) ((key, value) :: d_xattr (ps_out st)))).
 Proof.
   unfold pax_apply.
   (* every exact-match key of the table starts with another character than 'S' *)
@@ -687,11 +687,11 @@ Definition xattr_ok (x : xattr) : Prop :=
 Lemma pax_loop_schily xs : forall fuel st,
   Forall xattr_ok xs -> (length xs < fuel)%nat ->
   pax_loop fuel (schily_payload xs) st =
-  Some (mkps (ps_fl st) (set_xattr (ps_out st) (d_xattr (ps_out st) ++ xs)) (ps_off st) (ps_started st)).
+  Some (mkps (ps_fl st) (set_xattr (ps_out st) (rev xs ++ d_xattr (ps_out st))) (ps_off st) (ps_started st)).
 Proof.
   induction xs as [|[key value] xs IH]; intros fuel st Hok Hf.
-  - destruct fuel; [cbn in Hf; lia|]. cbn [schily_payload map concat pax_loop].
-    rewrite app_nil_r, set_xattr_id. destruct st; reflexivity.
+  - destruct fuel; [cbn in Hf; lia|]. cbn [schily_payload map concat pax_loop rev app].
+    rewrite set_xattr_id. destruct st; reflexivity.
   - destruct fuel; [cbn in Hf; lia|]. inversion Hok as [|? ? (Hk & Hl) Hok']; subst.
     cbn [fst snd] in Hk, Hl.
     change (schily_payload ((key, value) :: xs)) with (schily_record (key, value) ++ schily_payload xs).
@@ -704,7 +704,7 @@ Proof.
     rewrite pax_apply_schily. rewrite skipn_app_exact by reflexivity.
     rewrite IH by (try assumption; cbn [length] in Hf; lia).
     destruct st as [fl out off started]. cbn [ps_set ps_fl ps_out ps_off ps_started].
-    rewrite d_xattr_set, set_xattr_twice, <- app_assoc. reflexivity.
+    rewrite d_xattr_set, set_xattr_twice. cbn [rev]. rewrite <- app_assoc. reflexivity.
 Qed.
 
 Lemma schily_payload_length_ge xs : (length xs <= length (schily_payload xs))%nat.
@@ -715,12 +715,13 @@ Proof.
   pose proof (ndigits_bounds (rec_len k v)). rewrite dec_length. lia.
 Qed.
 
-(* the 'x' record in front of the stream *)
+(* the 'x' record in front of the stream: the reader prepends every record, so
+   the list it builds is the reverse of the list the writer was given *)
 Lemma rh_ext_X f orig xs nm s fl out :
   Forall byte_ok nm -> xs <> [] -> Forall xattr_ok xs ->
   N.of_nat (length (schily_payload xs)) <= MAX_LEN ->
   rh_loop (S f) (write_ext_header orig (schily_payload xs) T_PAX nm ++ s) fl out false =
-  rh_loop f s [] (set_xattr dec0 xs) false.
+  rh_loop f s [] (set_xattr dec0 (rev xs)) false.
 Proof.
   intros Hn Hne Hok Hmax. unfold write_ext_header. rewrite <- !app_assoc.
   set (payload := schily_payload xs) in *.
@@ -731,7 +732,7 @@ Proof.
     + pose proof (schily_payload_length_ge xs). fold payload in H.
       destruct xs; [contradiction|]. cbn [length] in H. lia.
     + unfold read_pax_header. rewrite record_to_memory_exact.
-      unfold payload. rewrite pax_loop_schily; [reflexivity|exact Hok|].
+      unfold payload. rewrite pax_loop_schily; [cbn [ps_out dec0 d_xattr]; rewrite app_nil_r; reflexivity|exact Hok|].
       pose proof (schily_payload_length_ge xs). lia.
 Qed.
 
@@ -820,7 +821,7 @@ Proof. intros ? ? ? H f Hf. destruct f; [lia|]. rewrite rh_ext_L by assumption. 
 Lemma rh_any_X n orig xs nm s fl out r :
   Forall byte_ok nm -> xs <> [] -> Forall xattr_ok xs ->
   N.of_nat (length (schily_payload xs)) <= MAX_LEN ->
-  rh_any n s [] (set_xattr dec0 xs) r ->
+  rh_any n s [] (set_xattr dec0 (rev xs)) r ->
   rh_any (S n) (write_ext_header orig (schily_payload xs) T_PAX nm ++ s) fl out r.
 Proof. intros ? ? ? ? H f Hf. destruct f; [lia|]. rewrite rh_ext_X by assumption. apply H. lia. Qed.
 
@@ -875,7 +876,8 @@ Record wf_entry (e : entry) (target : option (list N)) (xs : list xattr) : Prop 
   wf_xattr_len : N.of_nat (length (schily_payload xs)) <= MAX_LEN
 }.
 
-(* the header as read_header must deliver it *)
+(* the header as read_header delivers it: the xattr list comes back REVERSED
+   (every PAX record is prepended to the list) *)
 Definition decoded_of (e : entry) (target : option (list N)) (xs : list xattr) : dec_hdr :=
   if e_hardlink e then
     mkdec (Some (e_name e)) target [] 0 0 false true [] (perm (e_mode e))
@@ -883,10 +885,14 @@ Definition decoded_of (e : entry) (target : option (list N)) (xs : list xattr) :
   else
     let t := ftype (e_mode e) in
     let sz := if t =? S_IFREG then e_size e else 0 in
-    mkdec (Some (e_name e)) (if t =? S_IFLNK then target else None) [] sz sz false false xs
+    mkdec (Some (e_name e)) (if t =? S_IFLNK then target else None) [] sz sz false false (rev xs)
           (if t =? S_IFLNK then S_IFLNK + 511 else perm (e_mode e) + t)
           (e_uid e) (e_gid e)
           (if (t =? S_IFCHR) || (t =? S_IFBLK) then e_rdev e else 0) (e_mtime e).
+
+Lemma decoded_xattr e target xs :
+  d_xattr (decoded_of e target xs) = if e_hardlink e then [] else rev xs.
+Proof. unfold decoded_of. destruct (e_hardlink e); reflexivity. Qed.
 
 Lemma perm_lt m : perm m < 4096.
 Proof. unfold perm. apply N.mod_lt. discriminate. Qed.
@@ -1252,7 +1258,7 @@ Proof.
     unfold write_header. rewrite hdr_length. lia.
 Qed.
 
-(* decode (encode e) = e, whatever follows in the stream *)
+(* decode (encode e) = e with the xattr list reversed, whatever follows in the stream *)
 Theorem header_rt_l e target xs counter rest b :
   wf_entry e target xs ->
   write_tar_header e target xs counter = W_Ok b ->
@@ -1273,6 +1279,13 @@ Proof.
       * apply (header_rt_nonlink e target xs counter rest ty W Hh Hty Ef b Hb). exact Hf.
     + unfold write_tar_header in Hb. rewrite Hh, Hty in Hb. discriminate.
 Qed.
+
+Theorem header_rt_full e target xs counter rest b :
+  wf_entry e target xs ->
+  write_tar_header e target xs counter = W_Ok b ->
+  read_header (b ++ rest) = RH_Ok (decoded_of e target xs) rest /\
+  d_xattr (decoded_of e target xs) = (if e_hardlink e then [] else rev xs).
+Proof. intros W H. split; [apply (header_rt_l _ _ _ _ _ _ W H)|apply decoded_xattr]. Qed.
 
 (* sockets (and every other mode tar has no type for) are refused without
    output — this is what fix F22 establishes *)
